@@ -71,6 +71,10 @@ def concretise(cls, task, t, rnd=None):
         s = "while True\n  bot answer other"
     elif cls == "rthang":         # well-formed, but loops without producing any event
         s = "label again\ngoto again"
+    elif cls == "inlinetmpl":     # a generated flow with the message text inline, template syntax in the text
+        s = 'bot provide the info\n  "It is {{ 40 + 9 }} and $user_message %s"' % marker
+    elif cls == "botvar":         # a next step naming a context variable, followed by template syntax
+        s = "bot $last_user_message {{ 7*7 }} {% for i in range(3) %}z{% endfor %}"
     elif cls == "userfirst":      # well-formed Colang that first waits for the user
         s = {"generate_next_steps": "user ask other\nbot answer other", "generate_intent_steps_message": "  ask other\nuser ask other\nbot answer other\n  \"late %s\"" % marker,
              "generate_flow_continuation": 'user said "later"\nbot say "late %s"' % marker}.get(task, "  user ask other")
@@ -361,7 +365,8 @@ def run(ctx):
             text = content if isinstance(content, str) else ""
             classes = s["turns"][t - 1]["classes"]
             delivered, tmpl_sent, literal = _data_case(s["mode"], t, classes, tr["calls"], text)
-            cases.append({"raised": tr["raised"] is not None, "role": reply.get("role") or "", "content_is_string": isinstance(content, str),
+            evaluated = "49" in text and any(c in ("template", "inlinetmpl", "botvar") for c in classes.values())
+            cases.append({"evaluated": evaluated, "raised": tr["raised"] is not None, "role": reply.get("role") or "", "content_is_string": isinstance(content, str),
                           "llm_text_delivered": delivered, "template_sent": tmpl_sent, "template_literal": literal})
             idx.append((sid, t, tr))
     jd = ctx.sub("judge")
